@@ -25,6 +25,9 @@ for out in sorted(glob.glob('/tmp/seed_C*_out')):
 rows = []
 for d in sorted(glob.glob(os.path.join(VERIF, 'seeded', 'C*-mut*'))):
     meta = json.load(open(d + '/meta.json'))
+    if meta.get('id') in RESULTS and meta.get('checks') != RESULTS[meta['id']]:      # results recorded later (a check was strengthened)
+        meta['checks'] = RESULTS[meta['id']]
+        json.dump(meta, open(d + '/meta.json', 'w'), indent=1)
     rows.append('| %s | %s | %s | %s |' % (meta['id'], meta['summary'].replace('|', '/'), meta['needs'].replace('|', '/')[:160], '; '.join('%s: %s' % kv for kv in sorted(meta.get('checks', {}).items()))))
 open(os.path.join(VERIF, 'seeded', 'README.md'), 'w').write(
     '# Seeded changes\n\nEach directory holds `patch.diff` (apply with `git -C <worktree> apply`), `demo.py` (exit 0 = correct, 1 = wrong) and `meta.json`.\n'
